@@ -199,6 +199,9 @@ func FaultsInjected() int              { return 0 }
 func FSVisible(on bool)                {}
 func SetPid(n int)                     {}
 
+// CrashBudget bounds the total number of simulated crashes on a path (native: no-op).
+func CrashBudget(n int) {}
+
 // TempDir returns a fresh directory: "/"+name in the model file system, a real temporary
 // directory natively.
 func TempDir(name string) string {
